@@ -37,6 +37,15 @@ fn main() {
         "c10" => fam_c10::run(seed, thorough),
         "c16" => fam_c16::run(seed, thorough),
         "c14" => fam_c14::run(seed, thorough),
+        // the compiled values of the library's constants, for the translator
+        "consts" => {
+            for (name, values) in hbs_lms::verif_hooks::model_constants() {
+                util::Line::new("const").str("name", name).nums("v", &values).emit();
+            }
+            for (name, values) in hbs_lms::verif_hooks::build_constants() {
+                util::Line::new("const").str("name", name).nums("v", &values.iter().map(|x| *x as u64).collect::<Vec<_>>()).emit();
+            }
+        }
         "toy" => fam_toy::run(seed, thorough),
         "toyaux" => fam_toy::run_aux(seed, thorough),
         #[cfg(feature = "fast_verify")]
